@@ -9,6 +9,7 @@ use verif_harness::proto::*;
 
 fn main() {
     verif_harness::silence_logs();
+    verif_harness::start_watchdog(std::env::var("VERIF_WATCHDOG_SECS").ok().and_then(|s| s.parse().ok()).unwrap_or(60));
     let args: Vec<String> = std::env::args().collect();
     let get = |k: &str| -> Option<String> { args.iter().position(|a| a == k).and_then(|i| args.get(i + 1)).cloned() };
     let root = std::path::PathBuf::from(get("--root").expect("--root"));
